@@ -547,7 +547,6 @@ def classify(m):
     if name in ('nest', 'nestpage'):
         has_if = name == 'nest' and op[3] is not None
         has_proj = name == 'nest' and op[4] is not None
-        if suffix == 'EXC:KeyError' and 'kw' in info['history']: return 'limited-subquery-KeyError-after-keyword-filter'
         if suffix == 'wrong-rows':
             if has_if: return 'limited-subquery-filter-applied-before-limit'
             if has_proj: return 'limited-subquery-distinct-applied-before-limit'
